@@ -31,12 +31,14 @@ type PkgSpec struct {
 	HasTag  bool     `json:"tag,omitempty"`   // file variant selected by build tag "alt"
 	HasX    bool     `json:"x,omitempty"`     // string variable overridable with -X
 	Embed   bool     `json:"embed,omitempty"` // //go:embed data file
+	Decl    bool     `json:"decl,omitempty"`   // imports a declaration-only package (LLGoPackage = "decl") whose constant is compiled into it
+	SymSrc  bool     `json:"symsrc,omitempty"` // one of its Go files is a symbolic link to a file outside the package directory
 	CDef    bool     `json:"cdef,omitempty"`  // LLGoFiles = "$C13_CDEF: ..." - the C file is compiled with flags taken from an environment variable
 	Ext     bool     `json:"ext,omitempty"`   // lives in a second module (c13ext) that the main module requires at v1.0.0 and replaces by a local directory
 }
 
 type Step struct {
-	K       string `json:"k"`   // edit-src edit-src-same edit-c edit-embed tag x abi env cenv repro build noop clear crash fserr
+	K       string `json:"k"`   // edit-src edit-src-same edit-c edit-embed edit-decl edit-link tag x abi env cenv repro build noop clear crash fserr
 	Pkg     int    `json:"pkg"` // package index for edits
 	Arg     int    `json:"arg,omitempty"`
 	Torn    bool   `json:"torn,omitempty"`
@@ -78,7 +80,7 @@ func battery(clock string, embed, ext bool) *Scenario {
 	sc := &Scenario{Clock: clock}
 	sc.Pkgs = []PkgSpec{
 		{Name: "p0", Imports: []string{"p1", "p3"}, HasTag: true},
-		{Name: "p1", Imports: []string{"p2"}},
+		{Name: "p1", Imports: []string{"p2"}, Decl: true, SymSrc: true},
 		{Name: "p2", Imports: []string{"p3"}, HasC: true, TwoC: true, LinkLib: haveBz2},
 		{Name: "p3", HasC: true, CDef: true, Embed: embed, Ext: ext},
 	}
@@ -102,6 +104,8 @@ func battery(clock string, embed, ext bool) *Scenario {
 		{K: "env", Arg: 0}, b, // and back: the traced archives must not be reused
 		{K: "cenv", Arg: 3}, b, // the environment variable in p3's LLGoFiles compile flags changes what its C file computes
 		{K: "cenv", Arg: 0}, b,
+		{K: "edit-decl", Pkg: 1}, b, // a constant of a declaration-only package compiled into p1
+		{K: "edit-link", Pkg: 1}, b, // the target of a symbolic link among p1's source files
 	}
 	if embed {
 		sc.Steps = append(sc.Steps, Step{K: "edit-embed", Pkg: 3}, b)
@@ -131,6 +135,8 @@ func (prop) Generate(rng *sim.Rng, tier string, runIndex int) driver.Scenario {
 		p.TwoC = p.HasC && rng.Intn(2) == 0
 		p.LinkLib = p.HasC && haveBz2 && rng.Intn(2) == 0
 		p.CDef = p.HasC && rng.Intn(2) == 0
+		p.Decl = rng.Intn(3) == 0
+		p.SymSrc = rng.Intn(3) == 0
 		p.HasTag = rng.Intn(3) == 0
 		p.HasX = false // no command-line path to -X string overrides exists at this commit
 		p.Embed = embedWorld && rng.Intn(2) == 0
@@ -159,7 +165,7 @@ func (prop) Generate(rng *sim.Rng, tier string, runIndex int) driver.Scenario {
 	}
 	if rng.Intn(3) == 0 {
 		// the shared leaf lives in a second module, required at a version and replaced by a directory
-		sc.Pkgs[n-1].Ext, sc.Pkgs[n-1].LinkLib = true, false
+		sc.Pkgs[n-1].Ext, sc.Pkgs[n-1].LinkLib, sc.Pkgs[n-1].Decl = true, false, false
 	}
 	sc.Clock = []string{"normal", "normal", "normal", "stall", "backwards", "coarse"}[rng.Intn(6)]
 	ns := rng.Range(6, 10)
@@ -180,6 +186,10 @@ func (prop) Generate(rng *sim.Rng, tier string, runIndex int) driver.Scenario {
 		p := sc.Pkgs[pi]
 		var st Step
 		switch r := rng.Intn(16); {
+		case p.Decl && rng.Intn(8) == 0:
+			st = Step{K: "edit-decl", Pkg: pi}
+		case p.SymSrc && rng.Intn(8) == 0:
+			st = Step{K: "edit-link", Pkg: pi}
 		case r < 3:
 			st = Step{K: "edit-src", Pkg: pi}
 		case r < 5:
@@ -242,6 +252,8 @@ type pkgState struct {
 	c2Val    int
 	embedVer int
 	xVal     string
+	declVer  int
+	cfgVer   int
 }
 
 type world struct {
@@ -303,7 +315,13 @@ func (w *world) line(i int) string {
 		parts = append(parts, fmt.Sprintf("c2=%d", s.c2Val))
 	}
 	if p.LinkLib {
-		parts = append(parts, "bz=49") // first character of BZ2_bzlibVersion(): '1'
+		parts = append(parts, "bz=49", "sym=4352") // first character of BZ2_bzlibVersion(): '1'; distance of the two linker-defined symbols
+	}
+	if p.Decl {
+		parts = append(parts, fmt.Sprintf("d=d%02d", s.declVer))
+	}
+	if p.SymSrc {
+		parts = append(parts, fmt.Sprintf("cfg=g%02d", s.cfgVer))
 	}
 	if p.HasTag {
 		if w.tag {
@@ -365,7 +383,15 @@ func (w *world) writePkg(i int) {
 	p, s := w.sc.Pkgs[i], w.st[i]
 	d := w.pkgDir(i)
 	var sb strings.Builder
-	fmt.Fprintf(&sb, "package %s\n\nimport (\n\t_ \"unsafe\"\n", p.Name)
+	if p.LinkLib {
+		fmt.Fprintf(&sb, "package %s\n\nimport (\n\t\"unsafe\"\n", p.Name)
+	} else {
+		fmt.Fprintf(&sb, "package %s\n\nimport (\n\t_ \"unsafe\"\n", p.Name)
+	}
+	if p.Decl {
+		fmt.Fprintf(&sb, "\t\"c13mod/%sdecl\"\n", p.Name)
+		w.writeDecl(i)
+	}
 	if p.Embed {
 		sb.WriteString("\t_ \"embed\"\n")
 	}
@@ -376,7 +402,7 @@ func (w *world) writePkg(i int) {
 		// a package that is nothing but link-name declarations and a link argument:
 		// it needs no Go runtime, its only contribution to the program is "-lbz2"
 		fmt.Fprintf(&sb, "\t\"c13mod/%slib\"\n", p.Name)
-		w.write(filepath.Join(w.dir, p.Name+"lib", "lib.go"), fmt.Sprintf("package %slib\n\nimport _ \"unsafe\"\n\nconst LLGoPackage = \"link: -lbz2\"\n\n//go:linkname Version C.BZ2_bzlibVersion\nfunc Version() *int8\n", p.Name))
+		w.write(filepath.Join(w.dir, p.Name+"lib", "lib.go"), fmt.Sprintf("package %slib\n\nimport _ \"unsafe\"\n\nconst LLGoPackage = \"link: -lbz2 -Xlinker --defsym=c13_%s_a=0x1100 -Xlinker --defsym=c13_%s_b=0x2200\"\n\n//go:linkname Version C.BZ2_bzlibVersion\nfunc Version() *int8\n\n// two symbols the linker defines: the link arguments repeat a token and must reach the linker as a sequence\n//\n//go:linkname SymA c13_%s_a\nvar SymA byte\n\n//go:linkname SymB c13_%s_b\nvar SymB byte\n", p.Name, p.Name, p.Name, p.Name, p.Name))
 	}
 	sb.WriteString(")\n\n")
 	fmt.Fprintf(&sb, "const srcVer = \"v%04d\"\n\n// SrcVer is compiled into importers.\nconst SrcVer = srcVer\n%s\n", s.srcVer, strings.Repeat("// padding\n", s.pad))
@@ -410,6 +436,13 @@ func (w *world) writePkg(i int) {
 	}
 	if p.LinkLib {
 		fmt.Fprintf(&sb, "\ts += \" bz=\" + itoa(int32(*%slib.Version()))\n", p.Name)
+		fmt.Fprintf(&sb, "\ts += \" sym=\" + itoa(int32(uintptr(unsafe.Pointer(&%slib.SymB))-uintptr(unsafe.Pointer(&%slib.SymA))))\n", p.Name, p.Name)
+	}
+	if p.Decl {
+		fmt.Fprintf(&sb, "\ts += \" d=\" + %sdecl.DVal\n", p.Name)
+	}
+	if p.SymSrc {
+		sb.WriteString("\ts += \" cfg=\" + cfgVal\n")
 	}
 	if p.HasTag {
 		sb.WriteString("\ts += \" tag=\" + variant\n")
@@ -425,6 +458,21 @@ func (w *world) writePkg(i int) {
 	}
 	sb.WriteString("\treturn s\n}\n")
 	w.write(filepath.Join(d, p.Name+".go"), sb.String())
+}
+
+// writeDecl writes package i's declaration-only companion.
+func (w *world) writeDecl(i int) {
+	name := w.sc.Pkgs[i].Name
+	w.write(filepath.Join(w.dir, name+"decl", "decl.go"), fmt.Sprintf("package %sdecl\n\nconst LLGoPackage = \"decl\"\n\n// DVal is compiled into importers.\nconst DVal = \"d%02d\"\n", name, w.st[i].declVer))
+}
+
+// cfgTarget is the file package i's symbolic link points to.
+func (w *world) cfgTarget(i int) string {
+	return filepath.Join(filepath.Dir(w.dir), "cfgsrc", w.sc.Pkgs[i].Name+"_cfg.go.in")
+}
+
+func (w *world) writeCfg(i int) {
+	w.write(w.cfgTarget(i), fmt.Sprintf("package %s\n\nconst cfgVal = \"g%02d\"\n", w.sc.Pkgs[i].Name, w.st[i].cfgVer))
 }
 
 // auxSource is a second file of every package: several named types with
@@ -521,6 +569,11 @@ func (w *world) writeAll() {
 		w.writePkg(i)
 		d := w.pkgDir(i)
 		w.write(filepath.Join(d, p.Name+"_aux.go"), auxSource(p.Name))
+		if p.SymSrc {
+			w.writeCfg(i)
+			rel, _ := filepath.Rel(d, w.cfgTarget(i))
+			os.Symlink(rel, filepath.Join(d, p.Name+"_cfg.go"))
+		}
 		if p.HasC {
 			w.write(filepath.Join(d, "_wrap", "w.c"), w.cSource(i))
 		}
@@ -778,7 +831,7 @@ func (prop) Run(scx driver.Scenario, ch *sim.Choices, keep bool) *driver.Result 
 	w := &world{sc: sc, dir: filepath.Join(root, "mod"), cache: filepath.Join(root, "cache"), keep: keep, abi: 2, clock: 1_700_000_000_000_000_000}
 	w.st = make([]pkgState, len(sc.Pkgs))
 	for i := range w.st {
-		w.st[i] = pkgState{srcVer: 1, cVal: 10 + i, c2Val: 50 + i, embedVer: 1, xVal: "x0"}
+		w.st[i] = pkgState{srcVer: 1, cVal: 10 + i, c2Val: 50 + i, embedVer: 1, xVal: "x0", declVer: 10 + i, cfgVer: 20 + i}
 	}
 	os.MkdirAll(w.cache, 0o755)
 	// pre-warmed runtime/std cache: hard links (entries are only ever replaced, never written in place)
@@ -845,6 +898,23 @@ func (prop) Run(scx driver.Scenario, ch *sim.Choices, keep bool) *driver.Result 
 			sameMtime = false // embedded files are digested by content
 			lastEdit = st.K
 			w.logf("step %d: edit embedded file of %s -> e%d", si, sc.Pkgs[st.Pkg].Name, s.embedVer)
+		case "edit-decl":
+			s := &w.st[st.Pkg]
+			s.declVer = (s.declVer+7)%90 + 10 // two digits: same size
+			w.writeDecl(st.Pkg)
+			lastEdit, sameMtime = st.K, false
+			res.Probes["decl-package-edits"]++
+			w.logf("step %d: edit the declaration-only package of %s -> d%02d", si, sc.Pkgs[st.Pkg].Name, s.declVer)
+		case "edit-link":
+			s := &w.st[st.Pkg]
+			before, _ := os.Stat(w.cfgTarget(st.Pkg))
+			s.cfgVer = (s.cfgVer+7)%90 + 10
+			w.writeCfg(st.Pkg)
+			after, _ := os.Stat(w.cfgTarget(st.Pkg))
+			sameMtime = before != nil && after != nil && before.Size() == after.Size() && before.ModTime().Equal(after.ModTime())
+			lastEdit = st.K
+			res.Probes["symlinked-source-edits"]++
+			w.logf("step %d: edit the file %s's symbolic link points to -> g%02d (same mtime+size: %v)", si, sc.Pkgs[st.Pkg].Name, s.cfgVer, sameMtime)
 		case "tag":
 			w.tag = !w.tag
 			lastEdit, sameMtime = st.K, false
